@@ -101,6 +101,16 @@ func regression(class string, seed int64) []scenario {
 		sc := base("serial", true, 4096)
 		sc.Writes = []write{{N: 100, Faults: 1, Async: true, Flush: true}}
 		add(sc)
+	case "slow-state-follower":
+		sc := base("serial", true, 4096)
+		sc.Writes = []write{{N: 100, Faults: 1, Follower: true, Flush: true, Hold: 5}, {N: 7, Flush: true}}
+		add(sc)
+		sc = base("serial", false, 4096)
+		sc.Writes = []write{{N: 50, Follower: true, Flush: true}, {N: 2000, Faults: 2, Follower: true, Flush: true}}
+		add(sc)
+		sc = base("tcp", true, 4096)
+		sc.Writes = []write{{N: 50, Follower: true, Flush: true}, {N: 9, Follower: true, Flush: true}}
+		add(sc)
 	case "crcfault-each":
 		sc := base("serial", false, 4096)
 		sc.SegMode = 1
